@@ -78,6 +78,8 @@ MASK = {
         Lit("cap-backhaul", "cmp", big={"vehicle_capacity"}, small={"demand_backhaul", "used_capacity_backhaul"}, strict=False, conj=False, const=0,
             conj_with="is-backhaul"),
         Lit("is-linehaul", "cmp", big={"demand_linehaul"}, small=set(), strict=True, conj=False, const=0),
+        Lit("linehauls-missing", "cmp", big={"demand_linehaul", "visited"}, small=set(), strict=True, conj=False, const=0, conj_with="is-linehaul",
+            why="a linehaul is offered only while unserved linehaul demand exists (strictly positive remaining demand)"),
         Lit("is-backhaul", "cmp", big={"demand_backhaul"}, small=set(), strict=True, conj=False, const=0),
         Lit("no-linehaul-after-backhaul", "cmp", big=set(), small={"demand_backhaul", "current_node"}, strict=False, conj=False, const=0,
             conj_with="is-linehaul", why="linehauls before backhauls: not carrying backhaul when delivering"),
